@@ -147,6 +147,9 @@ use std::collections::BTreeSet;
 
 /// One run in five of a MAC-world property borrows the generator of another MAC-world property (all use the
 /// same case type). The foreign generator is called with a run index far beyond its systematic part.
+/// Properties whose oracle judges histories in which the application abandons a `join()` / `send()` half-way.
+pub const CANCEL_AWARE: &[&str] = &["C04", "C09", "C10"];
+
 pub fn cross_generate(own: &str, sources: &[&str], seed: u64, run: u64, tier: Tier, avoid: &BTreeSet<String>) -> Option<MacCase> {
     if run % 5 != 4 || sources.is_empty() {
         return None;
@@ -169,6 +172,16 @@ pub fn cross_generate(own: &str, sources: &[&str], seed: u64, run: u64, tier: Ti
     };
     // device variants that only the source's own oracle can judge
     c.cfg.dl_queue0 = false;
+    // fault kinds that only the source's own oracle can judge: an operation the application abandons half-way
+    // (the statements of the other properties do not quantify over cancellations)
+    if !CANCEL_AWARE.contains(&own) {
+        for op in c.ops.iter_mut() {
+            match op {
+                crate::script::Op::Join(t) | crate::script::Op::Send { txn: t, .. } => t.cancel_at = None,
+                _ => {}
+            }
+        }
+    }
     // `knob` is private to each property (C09: enumerate RNG outcomes)
     c.knob = if own == "C09" && (tier == Tier::Thorough || run % 8 == 0) { 1 } else { 0 };
     Some(c)
